@@ -1595,7 +1595,12 @@ func (w *world) volume(t int, op *Op, in *slotVal, res *opResult) {
 			res.addBytes(f.enc)
 			res.addInt(int64(f.size))
 			res.addU32(f.ssrc)
-			res.addStr(f.str)
+			if vi == 0 {
+				res.addrs = collectAddrs(in.pkt)
+				// (the twin lives inside this operation: a text that prints its addresses cannot be normalised by the
+				// comparisons between worlds, which know the addresses of the operation's own object only)
+				res.addStr(f.str)
+			}
 			res.addDump(f.dec)
 		}
 	}
